@@ -28,6 +28,7 @@ def base? : String → Option Base
   | "string" => some .str
   | "duration" => some .dur
   | "log" => some .log
+  | "wbool" => some .wbool
   | _ => none
 
 def kind? (s : String) : Option Kind :=
@@ -37,6 +38,10 @@ def kind? (s : String) : Option Kind :=
 def decl? (w : String) : Option Decl :=
   match w.splitOn ":" with
   | [sg, nm, kd, df] =>
+    match sg.toInt?, (if nm = "~" then some none else (hexStr? nm).map some), kind? kd, hexList? df with
+    | some s, some n, some k, some d => some ⟨s, n, k, d⟩
+    | _, _, _, _ => none
+  | [sg, nm, kd, df, _route] =>   -- the declaration route (g / v / w) does not matter to the model: flag-ness is the kind
     match sg.toInt?, (if nm = "~" then some none else (hexStr? nm).map some), kind? kd, hexList? df with
     | some s, some n, some k, some d => some ⟨s, n, k, d⟩
     | _, _, _, _ => none
